@@ -37,7 +37,7 @@ MANIFEST = dict(
     technique="Coq proof (partial) + model/implementation correspondence on random unit products",
 )
 
-THEOREMS = ["C05_no_panic", "C05_preserves_partial", "C05_preserves_registry_partial", "C05_respects_conversion", "C05_back"]
+THEOREMS = ["C05_no_panic", "C05_preserves_partial", "C05_preserves_registry_partial", "C05_respects_conversion", "C05_text_respects_conversion", "C05_back"]
 REL = 1e-9
 
 
@@ -62,7 +62,7 @@ def denotes_same(tbl, raw_v, raw_u, ob):
 
 def run(chk):
     binary, tbl = qtylib.session()
-    proved = chk.prove("Props.C05", THEOREMS, ["theories/Props/C05.vo", "theories/Qty/Prelude.vo"],
+    proved = chk.prove("Props.C05", THEOREMS, ["theories/Props/C05.vo", "theories/Qty/Prelude.vo", "theories/Qty/DisplayExec.vo", "theories/Qty/PreludeF.vo"],
                        extra_obligations=["Qty.Prelude.prelude_wf", "Qty.Prelude.prelude_exact_int",
                                           "Qty.Prelude.prelude_exact_pos"])
     chk.trusted += [
@@ -167,9 +167,9 @@ def run(chk):
         if o_simp.kind == "Q" and o_simp.finite() and tbl.exact_unit(c["u"]):
             scope = tbl.exact_unit(o_simp.unit)
             tol = abs(Fraction(o_simp.value)) * Fraction(REL)
-            items.append(("r_simp PX_env prelude_n_exact %s %s %s" % (
+            items.append(("r_simp_text PX_env prelude_n_exact %s %s %s" % (
                 qtylib.coq_Q(tol), qtylib.coq_Q(Fraction(o_simp.value)), tbl.coq_q(qtylib.f2bits(c["v"]), c["u"])),
-                o_simp.expected_model_string() if scope else "OOS"))
+                (o_simp.expected_model_string() + "|" + qtylib.display_shape_of(o_simp.display)) if scope else "OOS"))
             idx.append(n)
     site_checked = 0
     for s in srcs:
@@ -225,7 +225,7 @@ def run(chk):
         m = mism[n]
         o = Obs(outs[cases[n]["at"]])
         if m.startswith("ok:"):
-            mu = qtylib.parse_unit(m.split(":")[1])
+            mu = qtylib.parse_unit(m.split("|")[0].split(":")[1])
             if sorted(mu) == sorted(o.unit):
                 order_only += 1
                 del mism[n]
